@@ -745,6 +745,7 @@ func RunC04(d *Driver) *Report {
 		}
 	}
 	r.Rule = fmt.Sprintf("function level: accepts for ALL pairs of the %d types up to nesting depth %d (every composite with Fixed true and false, plus the interned empty, generic and none types); matches, Equals, combineTypes, concatType for all pairs up to depth %d; infer, fixedType, String for every type; combineTypes for all triples of depth-1 types (%d queries), each compared with Model/Types.lean. Program level: %d programs = %d target types (depth <= 2) x %d value expressions (constants incl. nested and empty literals, variables of every type, elements, fields, call results, type assertions, literals with variable elements, concatenations / repetitions / slices / groups) x 6 contexts (assignment, parameter, variadic parameter, return, array element, map field) + inferred declarations with typeof; the parser's verdict is compared with the model's accepts on the model's static type, and in the pure variable / constant cells with docs/spec.md through the theorems. Non-trivial = distinct query / program", len(tys), depth, map[bool]int{false: 2, true: depth}[Thorough()], nfun, nprog, len(targets), len(vals))
+	r.Rule += "; every cell of the type matrix that uses a call WITHOUT a value (user procedures with and without parameter, built-in procedures) as operand, element, argument, condition or range must be rejected; range headers with two and three operands of every variable type are accepted iff every operand is a num"
 	r.DriverCalls = d.N
 	return r
 }
